@@ -1261,7 +1261,8 @@ class StatemachineContext:
                         used_temporaries[obj._root] = True
                 return obj
 
-            state.visit_objects(check)
+            # include the run-time indices of sliced/indexed objects
+            _visit_referenced_objects(state, check)
 
     def _fix_signal_alias(self):
         for state in self._states:
